@@ -23,8 +23,9 @@ def FS.set (fs : FS) (p : Path) (v : Option Bytes) : FS := fun q => if q = p the
     in both programs below no path is renamed or removed between its open and its last write. -/
 inductive Op where
   | openTrunc  (p : Path)               -- `os.OpenFile(p, O_RDWR|O_CREATE|O_TRUNC, _)`: p exists and is empty afterwards
-  | createTemp (t : Path)               -- `os.CreateTemp(dir, pattern)`: a fresh, empty file `t` (O_EXCL)
-  | write      (p : Path) (d : Bytes)   -- `f.Write(d)` on the handle of p, positioned at the end
+  | createTemp (t : Path)               -- `os.CreateTemp(dir, pattern)`: a NEW name (O_EXCL), so `t` is empty afterwards
+  | openKeep   (t : Path)               -- `os.OpenFile(t, O_WRONLY|O_CREATE, _)`: creates `t` if absent, KEEPS its content otherwise
+  | write      (p : Path) (d : Bytes)   -- `f.Write(d)` on a freshly opened handle of p: offset 0, overwrites, never shortens
   | chmod      (p : Path)               -- `f.Chmod`: no effect on contents
   | sync       (p : Path)               -- `f.Sync`: no effect on contents seen by a reader of the running system
   | close      (p : Path)               -- `f.Close`
@@ -36,7 +37,10 @@ deriving Repr, DecidableEq
 def Op.run : Op → FS → FS
   | .openTrunc p, fs  => fs.set p (some [])
   | .createTemp t, fs => fs.set t (some [])
-  | .write p d, fs    => fs.set p ((fs p).map (· ++ d))   -- (p always exists in the programs below)
+  | .openKeep t, fs   => fun q => match fs t with
+                         | some _ => fs q
+                         | none   => (fs.set t (some [])) q
+  | .write p d, fs    => fs.set p ((fs p).map fun c => d ++ c.drop d.length)   -- (p always exists in the programs below)
   | .chmod _, fs      => fs
   | .sync _, fs       => fs
   | .close _, fs      => fs
@@ -55,6 +59,7 @@ def Op.interrupted (k : Nat) : Op → FS → FS
 def Op.targets : Op → List Path
   | .openTrunc p  => [p]
   | .createTemp t => [t]
+  | .openKeep t   => [t]
   | .write p _    => [p]
   | .chmod _      => []
   | .sync _       => []
@@ -65,6 +70,7 @@ def Op.targets : Op → List Path
 def Op.name : Op → String
   | .openTrunc _  => "os.OpenFile:O_TRUNC"
   | .createTemp _ => "os.CreateTemp"
+  | .openKeep _   => "os.OpenFile"
   | .write _ _    => "Write"
   | .chmod _      => "Chmod"
   | .sync _       => "Sync"
@@ -96,6 +102,12 @@ def storeInPlace (p : Path) (d : Bytes) : Prog where
   main    := [.openTrunc p, .write p d, .close p]
   cleanup := fun i => if i = 0 then [] else [.close p]
 
+/-- a variant that must NOT be written (kept for the theorem that says why): a FIXED temp name opened without O_TRUNC /
+    O_EXCL, so a temp file left by a killed store is reused with its old content -/
+def storeFixedTemp (p t : Path) (d : Bytes) : Prog where
+  main    := [.openKeep t, .write t d, .chmod t, .sync t, .close t, .rename t p]
+  cleanup := fun i => if i = 0 then [] else [.close t, .remove t]
+
 /-- where and how a store operation is cut short -/
 inductive Fault where
   | none
@@ -122,6 +134,25 @@ def status (pr : Prog) : Fault → Status
   | .none => .ok
   | .die i _ => if i < pr.main.length then .died else .ok
   | .fail i _ _ => if i < pr.main.length then .err else .ok
+
+/-! ### sequences of stores into one directory (nothing is cleaned up in between: a killed store leaves its temp file) -/
+
+structure Step where
+  new   : Bytes     -- the content to store
+  tmp   : Path      -- the temp name `os.CreateTemp` picks for this store
+  fault : Fault
+deriving Repr
+
+/-- the file-system states after each step -/
+def runSeqTrace (p : Path) : List Step → FS → List FS
+  | [], _ => []
+  | s :: ss, fs =>
+    let fs' := exec (storeAtomic p s.tmp s.new) s.fault fs
+    fs' :: runSeqTrace p ss fs'
+
+def runSeq (p : Path) : List Step → FS → FS
+  | [], fs => fs
+  | s :: ss, fs => runSeq p ss (exec (storeAtomic p s.tmp s.new) s.fault fs)
 
 /-- the getters: `os.ReadFile` then decode -/
 def readBack {V : Type} (decode : Bytes → Option V) (fs : FS) (p : Path) : Option V :=
